@@ -258,8 +258,14 @@ def select(behs, n, rng):
             by.setdefault(shape(b), []).append(b)
         shapes = sorted(by)
         rng.shuffle(shapes)
-        # shapes with more run requests first
-        shapes.sort(key=lambda s: -sum(1 for c in s if c in ("config", "contin", "restar")))
+        # shapes with more run requests, and more set requests after the start, first
+        def weight(s):
+            runs = sum(1 for c in s if c in ("config", "contin", "restar"))
+            start = s.index("config") if "config" in s else len(s)
+            late_sets = sum(1 for c in s[start:] if c.startswith("set"))
+            last_is_run = 1 if s and s[-1] in ("contin", "restar") else 0
+            return -(runs + late_sets + last_is_run)
+        shapes.sort(key=weight)
         for s in shapes:
             rng.shuffle(by[s])
         take, k = [], 0
